@@ -1,0 +1,77 @@
+//go:build verif
+
+// Contracts for the lockstep contract of pipe streams (property C06, reduced core). Comment-only.
+
+package vgirpc
+
+// ---- OutputCollector: at most one data batch per turn ----
+//
+// wfColl: dataBatchIdx is -1 (no data batch yet) or the index of a collected batch. The fields
+// are written by the collector's own functions only (other code reads them: checked).
+//
+//@ pure func wfColl(o *OutputCollector) bool = o != nil && (o.dataBatchIdx == -1 || (0 <= o.dataBatchIdx && o.dataBatchIdx < len(o.batches)))
+//@ ownedwrites OutputCollector.batches, OutputCollector.dataBatchIdx, OutputCollector.finished, OutputCollector.producerMode by newOutputCollector, (*OutputCollector).EmitWithMetadata, (*OutputCollector).Finish, (*OutputCollector).ClientLog, (*OutputCollector).releaseBatches
+//
+//@ func newOutputCollector
+//@   property C06
+//@   ensures [fresh] wfColl(result) && result.dataBatchIdx == -1 && !result.finished && result.producerMode == producerMode && len(result.batches) == 0
+//
+// (the emit interceptor transforms the batch; it is assumed not to touch the collector)
+//@ func "field:OutputCollector.EmitInterceptor" (batch)
+//@   modifies nothing
+//@ func (*OutputCollector).EmitWithMetadata
+//@   property C06
+//@   objinvariant wfColl(o)
+//@   ensures [local_second_ret1] result != nil && o.dataBatchIdx == old(o.dataBatchIdx) && o.batches == old(o.batches) && old(o.dataBatchIdx) >= 0
+//@   ensures [first] result == nil ==> o.dataBatchIdx == len(o.batches) - 1 && o.dataBatchIdx >= 0
+//
+//@ func (*OutputCollector).Emit
+//@   property C06
+//@   at call (*OutputCollector).EmitWithMetadata assert [same] arg0 == o && arg1 == batch
+//
+//@ func (*OutputCollector).Finish
+//@   property C06
+//@   objinvariant wfColl(o)
+//@   ensures [refused] (result != nil) <==> !old(o.producerMode)
+//@   ensures [finished] (result == nil ==> o.finished) && (result != nil ==> o.finished == old(o.finished))
+//@   ensures [keeps] o.dataBatchIdx == old(o.dataBatchIdx) && o.batches == old(o.batches)
+//
+//@ func (*OutputCollector).validate
+//@   property C06
+//@   modifies nothing
+//@   ensures [nodata] (result != nil) <==> o.dataBatchIdx < 0
+//
+//@ func (*OutputCollector).ClientLog
+//@   property C06
+//@   objinvariant wfColl(o)
+//@   ensures [logappended] len(o.batches) == old(len(o.batches)) + 1 && o.dataBatchIdx == old(o.dataBatchIdx)
+//
+//@ func (*OutputCollector).releaseBatches
+//@   property C06
+//@   ensures [reset] len(o.batches) == 0 && o.dataBatchIdx == -1
+
+// ---- serveStream: a turn that fails ends the stream with exactly one exception batch ----
+//
+// excWritten: an exception batch was written in the lockstep loop. At the loop head no turn has
+// failed yet; every exception batch is the first; when the function returns a stream error from
+// the loop, that batch was written.
+//
+//@ func (*Server).serveStream
+//@   property C06
+//@   pathflag excWritten
+//@   loop 1 invariant !excWritten && streamErr == nil
+//@   at call writeErrorBatch after ipc.NewReader assert [onlyone] !excWritten && arg0 == outputWriter && arg4 == req.RequestID
+//@   at call writeErrorBatch after ipc.NewReader mark excWritten
+//@   ensures [local_failedturn_ret10] streamErr != nil ==> excWritten
+
+// building an empty batch touches nothing of the caller's (proved, given that arrow-go's
+// constructors and reference counts do not reach into this package's heap)
+//@ func makeEmptyArray
+//@   property C06
+//@   modifies nothing
+//@ func emptyBatch
+//@   property C06
+//@   modifies nothing
+//@ func defaultAllocator
+//@   property C06
+//@   modifies nothing
